@@ -89,7 +89,7 @@ Proof.
   match goal with |- context [k ?X] =>
     assert (G1 : Good X) by (eapply pstep_good; eassumption);
     pose proof (Hk X G1) as T; destruct (k X) end; cbn in *.
-  - econstructor; [exact S1|]. eapply psteps_trans; [exact T|apply resume_r_tr].
+  - econstructor; [exact S1|]. destruct (pending _); [eapply psteps_trans; [exact T|apply resume_r_tr]|exact T].
   - econstructor; eassumption.
   - econstructor; eassumption.
 Qed.
